@@ -76,6 +76,10 @@ CLAIMS = {
    level=("model_checking", "PeerSelection.tla enumerates every (peers, live, dead, seeds) input over 6 addresses up to address renaming (1716 canonical inputs) and defines the allowed outputs (Allowed) plus the two 'always' clauses as TLC-checked invariants; the real select_nodes_for_gossip is called on every input under several address assignments and a battery of scripted RNGs (constant extremes, counters, strides, every 7-draw script over spread values, seeded streams); every distinct observed (input, output) pair is judged by TLC against the same formulas.", "6 (C17)"),
    note="HashSet iteration order is random per process, so the set of outputs actually observed varies between runs; exhaustive over subset structure, sampled over RNG outputs",
    technique="TLA+ exhaustive input enumeration (PeerSelection.tla) + real calls under scripted RNGs + observer spec"),
+ "C09": dict(
+   level=("model_checking", "Hostile.tla = Gossip.tla + an adversary delivering every decodable datagram built from op streams of up to 3 syntactically valid operations in arbitrary order (member headers incl. the victim's own id and unknown members, key-values, SetMaxVersion), digests and cluster ids over small values; the decoder (DeltaBuilder::apply_op) and every assertion on the processing path are transcribed; TLC checks no panic, monotonic frontiers and the live/dead set invariants and exports every transition, each replayed on real nodes through the independent codec. Byte level: random, bit-flipped, truncated, extended, spliced and 65 507-byte variants of real datagrams delivered to real nodes in evolving states, judged by the observer specification (no panic, undecodable => state unchanged, monotonic, set invariants).", "6 (C09)"),
+   note="defect F-3 (SetMaxVersion after key-values aborts the node) was found by this check and repaired by a fix: commit; u64 values beyond TLC's 32-bit integers are rank-compressed per trace (formulas only compare them); member sets stay far below one datagram",
+   technique="TLA+ model checking with adversary (Hostile.tla) + edge replay through independent codec + byte-level fuzz traces judged by observer spec"),
 }
 PENDING = "specification module for this property not built yet in this revision (see DESIGN.md section 10 build order)"
 
